@@ -534,26 +534,40 @@ func run(c Sx) Result {
 		}
 		e.dir = dir
 	}
-	disk, err := rawdb.Open(rawdb.NewMemoryDatabase(), rawdb.OpenOptions{Ancient: e.dir})
-	if err != nil {
-		panic(err)
-	}
-	e.disk = disk
 	wb := 64 * 1024 * 1024
 	if full {
 		wb = 0
 	}
 	pathdb.VerifC17SetMaxDiffLayers(maxdiff)
-	e.db = pathdb.New(disk, &pathdb.Config{StateHistory: limit, WriteBufferSize: wb, NoAsyncFlush: !async,
-		NoAsyncGeneration: true, TrienodeHistory: -1, TrieCleanSize: 0, StateCleanSize: 0,
-		EnableStateIndexing: true, NoHistoryIndexDelay: true}, false)
-	defer e.close()
-	for i := 0; !e.db.VerifC18IndexerInited(); i++ {
-		if i > 200000 {
+	// The initer's first heartbeat can fire before its state goroutine has marked the
+	// chain as synced; it then sleeps 15 s.  Nothing has happened to the database yet,
+	// so it is simply re-created until the initial phase finishes promptly.
+	for attempt := 0; ; attempt++ {
+		disk, err := rawdb.Open(rawdb.NewMemoryDatabase(), rawdb.OpenOptions{Ancient: e.dir})
+		if err != nil {
+			panic(err)
+		}
+		e.disk = disk
+		e.db = pathdb.New(disk, &pathdb.Config{StateHistory: limit, WriteBufferSize: wb, NoAsyncFlush: !async,
+			NoAsyncGeneration: true, TrienodeHistory: -1, TrieCleanSize: 0, StateCleanSize: 0,
+			EnableStateIndexing: true, NoHistoryIndexDelay: true}, false)
+		ok := false
+		for i := 0; i < 400 && !ok; i++ {
+			ok = e.db.VerifC18IndexerInited()
+			if !ok {
+				time.Sleep(50 * time.Microsecond)
+			}
+		}
+		if ok {
+			break
+		}
+		e.db.Close()
+		e.disk.Close()
+		if attempt > 100 {
 			panic("state indexer does not finish its initial phase")
 		}
-		time.Sleep(50 * time.Microsecond)
 	}
+	defer e.close()
 	held := map[int]*pathdb.HistoricalStateReader{}
 	heldLabel := map[int]int64{}
 	diffReads := 0
